@@ -325,6 +325,7 @@ def run(rep, tier):
             c12.clause_b(facts, rep, tag)
         if cfg == 'K1':
             c14.clause_e(facts, rep, ('::avx2::',))
+            c14.clause_c(facts, rep)       # comparator shape: min(n1, n2) bytes, then the length tie-break
     rep.trust('clang 14 front end')
     rep.assumptions += [
         'decides who may write the numeric payload, zero-initialisation and kind of number nodes, kind selection of sibling constructors, and the structure of operator== (basic type first, kind equality + whole-node comparison for numbers, sizes before children, string views, != as negation)',
